@@ -14,25 +14,27 @@ from harness.core import Atom, Failure, Mismatch, Result, sx
 
 MANIFEST = dict(
     design_ref="DESIGN.md §6 Group N (C20)",
-    text="Codecs: Coq theorems C20_inotify_roundtrip / C20_win_roundtrip (every record count, name length and padding; induction, "
-         "no bound) over byte-level executable models of Inotify._parse_event_buffer and winapi._parse_event_buffer (repaired codec "
-         "utf-16-le; C20_win_bom_refuted records defect F8 of the pinned 'utf-16'). Windows emitter: C20_win_contract - for every "
-         "tree and every operation the real action table, fed the simulator's notifications, queues exactly the per-operation "
-         "contract (one moved event + one synthetic event per descendant via C14, move in/out = created/deleted); "
-         "C20_win_cuts / C20_win_contract_cut - the same for every cut of the notification stream into reads (pending old name "
-         "carried across calls); C20_win_replay_partial - replay reproduces the tree for histories of any length whose renamed/arriving entries are leaves; "
-         "the general replay law is a stated Definition checked by the oracle. FSEvents emitter: C20_fsevents_flat(+_depth) proved "
-         "for every batch; contract/replay for uncoalesced one-operation batches are stated Definitions checked by correspondence "
-         "and oracle; several operations per batch: C20_fsevents_batched_refuted (F12). All models are tied to /repo by running the "
-         "extracted OCaml models and the real functions (imported on Linux through shims) on the same inputs on every run.",
+    text="Codecs: C20_inotify_roundtrip / C20_win_roundtrip (every record count, name length, padding; induction, no bound) over "
+         "byte-level models of Inotify._parse_event_buffer and winapi._parse_event_buffer; C20_win_bom_refuted records F8. "
+         "Windows emitter: C20_win_contract / C20_win_contract_cut (every tree, every operation, every cut of the notifications "
+         "into reads: the action table queues exactly the per-operation contract, synthetic events via C14), C20_win_replay "
+         "(replaying the contract of ANY operation, directories with content included, reproduces the tree: chain of exact "
+         "re-keys = prefix rename), C20_win_replay_history and C20_win_history (emitter over whole histories). FSEvents emitter: "
+         "C20_fsevents_flat(+_depth) for every batch; C20_fsevents_contract (all operations, one operation per batch, no "
+         "coalescing, recursive or not), C20_fsevents_replay, C20_fsevents_history (emitter over whole histories with the "
+         "_fs_view carried along, under no-inode-reuse - necessity shown by C20_fsevents_inode_reuse_refuted); multi-operation "
+         "batches: C20_fsevents_batch_partial under the exact hypotheses batch_ok (stat_ok, no_partner, covers), "
+         "C20_fsevents_coalesce_distinct, cut rename pair: C20_fsevents_cut_events_partial / _cut_replay_partial; the "
+         "unrestricted batched law is refuted in Coq (C20_fsevents_batched_full_refuted = findings F12a-e). All models and the "
+         "contract functions are tied to /repo by running the extracted OCaml models and the real functions (imported on "
+         "Linux through shims) on the same inputs on every run.",
     note="Trusted: Coq kernel; struct 'iIII' = little-endian 4x32 bit on this machine; ctypes reads; CPython's utf-16 codecs "
          "(validated against the model on every run). ReadDirectoryChangesW and FSEvents semantics are modelled from the "
-         "documentation and cannot be validated in this sandbox; os.path is posixpath here (ntpath on Windows). Known findings "
-         "F11 (REMOVED always File flavour), F12a-e (FSEvents rename pairing / os.stat look-up inside one multi-operation batch, "
-         "one entry per operation-log pattern). F13 (rename pair cut across reads) is repaired by fixes/F13-win-rename-state.diff; "
-         "the model follows the repaired code (C20_win_cuts, C20_win_contract_cut), C20_win_cut_refuted records the pinned behaviour.",
-    technique="Coq proof (induction over record lists / per-operation case analysis) + differential correspondence via "
-              "extracted OCaml model + implementation-level oracle on a real scratch directory",
+         "documentation and cannot be validated in this sandbox; os.path is posixpath here (ntpath on Windows); os.path.isdir / "
+         "os.stat / os.walk are oracles assumed to answer for the tree at processing time. Known findings F11 (REMOVED always "
+         "File flavour) and F12a-e (FSEvents rename pairing / os.stat look-up inside one multi-operation batch).",
+    technique="Coq proof (induction over record lists / per-operation case analysis / induction over histories and batches) + "
+              "differential correspondence via extracted OCaml model + implementation-level oracle on a real scratch directory",
 )
 
 TRUSTED = [
@@ -51,7 +53,10 @@ ASSUMPTIONS = [
     "Windows records: Action and entry size fit a DWORD; names are sequences of Unicode scalar values (a lone surrogate, "
     "which NTFS permits, makes both the pinned and the repaired decoder raise UnicodeDecodeError - outside 'well-formed')",
     "emitters: native notification sequences are those of the documented-semantics simulators win_kernel / fsevents_kernel; "
-    "the emitter runs after the operation has completed (one operation per batch) unless a theorem says otherwise",
+    "the emitter runs after the operation has completed (one operation per batch) unless a theorem says otherwise "
+    "(C20_win_contract_cut: any cut into reads; C20_fsevents_batch_partial: several operations per batch under batch_ok)",
+    "FSEvents histories: a created file or directory gets an inode number never seen before while the emitter lives "
+    "(fse_history_ok; C20_fsevents_inode_reuse_refuted shows the emitter misses a creation otherwise)",
 ]
 
 
